@@ -21,8 +21,9 @@
        empty or comment-only lines before and between them; final newline or not) under the decidable printer-side
        condition [doc_ok] alone (C01_events_roundtrip);
      - recipes: the analysis model run on the bridged events of such a document returns, valid,
-       the denotation [denote] of the document (Model/Denote.v: tables, names, scaling kind and
-       lock, units, modifiers, `&` references resolved to the last earlier definition with the
+       the denotation [denote] of the document (Model/Denote.v: tables, names, the value of every
+       quantity - the decimal written, exactly; `w a/b` as w + a/b; both ends of a range; the text -
+       with its scaling kind and lock, units, modifiers, `&` references resolved to the last earlier definition with the
        back link recorded, intermediate references `&(..)` resolved to a step of the section or
        to a closed section, step items/order/numbers, sections, text blocks), for the class
        [adoc_ok] (C01_analyse_roundtrip); composed with the printer through ParseTotal.parse_model
@@ -562,6 +563,32 @@ Proof.
   assert (H2 : adoc_ok ufold (fun _ => None) uclass x_all doc4 = true) by (vm_compute; reflexivity).
   split; [exact H1|]. split; [exact H2|]. split; [vm_compute; reflexivity|]. split; [vm_compute; reflexivity|].
   exact (C01_parse_print_partial Ug cfg_all ufold (fun _ => true) (fun _ => None) uclass x_all doc4 tape4 H1 H2).
+Qed.
+
+(* the values the denotation of doc4 holds (`@salt{1%g}`, `~{5%min}`), and what a decimal, a mixed number and a
+   range of fractions denote: `12.50`, `1 1/2-7/2`.  A decimal literal with k fraction digits is held as
+   (its digits * 10) / 10^(k+1) ([dec_q], the parser model's reading of float()), hence the [Qeq]. *)
+Definition value_qeq (a b : Events.pvalue) : Prop :=
+  match a, b with
+  | Events.VNumber p, Events.VNumber q => Qeq p q
+  | Events.VRange p1 p2, Events.VRange q1 q2 => Qeq p1 q1 /\ Qeq p2 q2
+  | Events.VText s, Events.VText t => s = t
+  | _, _ => False
+  end.
+Example C01_values_example :
+  Forall2 (fun o v => match o, v with Some a, Some b => value_qeq a b | None, None => True | _, _ => False end)
+    (map (fun c => option_map Analysis.qi_value (Analysis.c_qty c))
+         (Analysis.r_ingredients (denote ufold (fun _ => None) true doc4)))
+    [Some (Events.VNumber (Qmake 1 1)); None; None] /\
+  Forall2 (fun o v => match o, v with Some a, Some b => value_qeq a b | None, None => True | _, _ => False end)
+    (map (fun t => option_map Analysis.qi_value (Analysis.tm_qty t))
+         (Analysis.r_timers (denote ufold (fun _ => None) true doc4)))
+    [Some (Events.VNumber (Qmake 5 1))] /\
+  value_qeq (value_of (denote_value (QNum (SDec [49; 50] [53; 48])))) (Events.VNumber (Qmake 25 2)) /\
+  value_of (denote_value (QRange (SMixed [49] [49] [50]) (SFrac [55] [50]))) = Events.VRange (Qmake 3 2) (Qmake 7 2).
+Proof.
+  split; [vm_compute; repeat constructor|]. split; [vm_compute; repeat constructor|].
+  split; vm_compute; reflexivity.
 Qed.
 
 (* ---- front matter: `---`, `title: x`, `--- ` and the document doc4 *)
